@@ -117,11 +117,18 @@ class Gen:
         ctx = self.ctx_choice(for_append=False)
         ttl = self.r.choice([None, "forever", "time:50", "time:3600000", "head:1", "head:2"])
         k = self.some_frame()
-        if k is not None and r < 0.25 and self.p.get("reimport", True):
-            # the same id again: identical re-import when `same`, else colliding content
+        if k is not None and r < 0.3:
+            # the same id again: identical re-import, or colliding content (other topic and/or context)
             fid = {"ref": k}
-            same = self.r.random() < 0.6 or not self.p.get("collide", False)
-            frame = {"same_as": k} if same else None
+            rr = self.r.random()
+            if rr < 0.45:
+                frame = {"same_as": k}
+            elif rr < 0.7:
+                frame = {"same_as": k, "ctx": ctx}            # same topic, other context
+            elif rr < 0.85:
+                frame = {"same_as": k, "topic": hx(topic)}    # other topic, same context
+            else:
+                frame = None
         elif k is not None and r < 0.55:
             fid = {"ref": k, "plus": self.r.choice([-1, 1, -2 ** 40, 2 ** 40, -2 ** 81, 2 ** 81])}
             frame = None
@@ -132,7 +139,7 @@ class Gen:
             frame = {"id": fid, "topic": hx(topic), "ctx": ctx, "ttl": ttl,
                      "meta": self.r.choice(METAS), "hash": self.r.choice(HASHES)}
         i = self.add({"op": "import", "frame": frame})
-        if "same_as" in frame or "\x00" not in topic:
+        if (frame.get("same_as") is not None and "topic" not in frame) or "\x00" not in topic:
             self.frames.append(i)
             if "same_as" not in frame and topic == XSCTX and ctx == ZERO:
                 self.ctx_regs.append(i)
@@ -314,8 +321,13 @@ class Resolver:
         if k == "import":
             fr = op["frame"]
             if "same_as" in fr:
-                fr = dict(self.frames.get(fr["same_as"]) or
-                          {"id": ABSENT_ID, "topic": "61", "ctx": ZERO, "ttl": None, "meta": None, "hash": None})
+                base = dict(self.frames.get(fr["same_as"]) or
+                            {"id": ABSENT_ID, "topic": "61", "ctx": ZERO, "ttl": None, "meta": None, "hash": None})
+                if "ctx" in fr:
+                    base["ctx"] = self.id(fr["ctx"])
+                if "topic" in fr:
+                    base["topic"] = fr["topic"]
+                fr = base
             else:
                 fr = dict(fr)
                 fr["id"] = self.id(fr["id"])
@@ -568,6 +580,51 @@ def api_oracle(trace):
                     props.append("C06")
                 fails.append({"i": i, "why": "head is not the newest frame of exactly that topic", "want": want, "got": got, "props": props})
     return fails
+
+
+def deep_probe_case(case, trace):
+    """extend a case by an exhaustive look through every access path at every (context, topic,
+    id) the trace ever mentioned, after every pending gc task has run - used to turn an
+    internal (index / registry) difference into an API-visible failing input"""
+    ctxs, topics, ids = {ZERO}, set(), set()
+    for e in trace:
+        op = e["op"]
+        for key in ("ctx",):
+            if isinstance(op.get(key), str):
+                ctxs.add(op[key])
+        fr = op.get("frame") if op.get("op") == "import" else (op if op.get("op") == "append" else None)
+        if fr:
+            if isinstance(fr.get("ctx"), str): ctxs.add(fr["ctx"])
+            if isinstance(fr.get("topic"), str): topics.add(fr["topic"])
+            if isinstance(fr.get("id"), str): ids.add(fr["id"])
+        if op.get("op") == "append" and isinstance(e["obs"].get("ok"), dict):
+            ids.add(e["obs"]["ok"]["id"])
+        d = e.get("dump") or {}
+        for _, f in d.get("stream", []):
+            if isinstance(f, dict) and "ctx" in f:
+                ctxs.add(f["ctx"]); topics.add(f["topic"]); ids.add(f["id"])
+    ops = list(case["ops"])
+    def sweep():
+        for c in sorted(ctxs):
+            ops.append({"op": "read_sync", "ctx": c, "last": None, "limit": None})
+            ops.append({"op": "append", "topic": "70726f6265", "ctx": c, "ttl": "ephemeral", "meta": None, "hash": None})
+            for t in sorted(topics):
+                if "00" not in [t[j:j + 2] for j in range(0, len(t), 2)]:
+                    ops.append({"op": "head", "topic": t, "ctx": c})
+        ops.append({"op": "read_sync", "ctx": None, "last": None, "limit": None})
+        for i in sorted(ids):
+            ops.append({"op": "get", "id": i})
+    sweep()
+    # let head:1 collection count what the index holds, then look again
+    for c in sorted(ctxs):
+        for t in sorted(topics):
+            if "00" not in [t[j:j + 2] for j in range(0, len(t), 2)] and t != hx(XSCTX):
+                ops.append({"op": "append", "topic": t, "ctx": c, "ttl": "head:1", "meta": None, "hash": None})
+    ops.append({"op": "drain"})
+    sweep()
+    ops.append({"op": "reopen", "how": "kill"})
+    sweep()
+    return {"name": case["name"] + "-probe", "ops": ops}
 
 
 def run_cases(cases, jobs=16, gated=True):
